@@ -124,6 +124,14 @@ RULE = ("exhaustive small scope: every signature of arity 1..4 (quick) / 1..5 (t
         "==-equal values of different types (1 / 1.0 / True / Fraction(1) / 1+0j, 0 / 0.0 / False, two equal tuples, "
         "two equal frozensets), value-equal user objects and equal lists, every pair of variants of one number for "
         "every kind, the call log identifying each constant by identity; "
+        "plus a signature stream: keyword-only parameters (def f(a, *, b, c=7), dataclass fields with kw_only=True) in every "
+        "accepted call shape of arity 1..3, and every such call spoiled by one defect Python rejects (surplus positional, "
+        "keyword-only passed positionally, parameter passed positionally and by keyword, unknown keyword, missing "
+        "argument), where the property demands that TypeError at the call or from the evaluation; over EVERY stream two "
+        "environment variations the model ignores: Predicate subclasses whose constructor DERIVES the state __call__ reads "
+        "(__post_init__ of a dataclass / hand-written __init__ keeping nothing under the parameter names), and calls BUILT "
+        "(and in half of the cases evaluated) while another query's lazily consumed evaluate() generator over a predicate "
+        "/ symbolic function is suspended between two next() calls and finished afterwards; "
         "non-trivial = the call is symbolic and the result set is neither empty nor every candidate binding, or the "
         "call is concrete with at least two parameters; distinct by case text")
 EXHAUSTIVE = True
@@ -140,6 +148,14 @@ class Spec:
         self.kind = kind  # fn | method | pred
         self.params = params  # [(name, default or None)]
         self.kwonly = set(kwonly or ())  # names of the keyword-only parameters (a suffix of params): `def f(a, *, b)`
+        # shape of the Predicate subclass (kind pred only): "" = plain dataclass that holds its parameters; "post" = the
+        # dataclass derives its state in __post_init__ and __call__ reads ONLY the derived state; "init" = hand-written
+        # __init__ that stores only derived state (no attribute named like a parameter)
+        self.ctor = ""
+        # the call is BUILT while another query's evaluate() generator (over a predicate "pred" / a symbolic function
+        # "fn") is suspended between two next() calls; susp_eval: it is also evaluated inside that window
+        self.susp = ""
+        self.susp_eval = False
         self.pos = pos  # [("l", n) | ("l", n, t) | ("v", i) | ("a", i, k)]   ("a": variable i through accessor k, see
         # ACCESSORS; ("l", n, t): constant number n in variant t - an ==-equal but different object, see CONST_VARIANTS)
         self.knobs = dict(knobs or {})  # class-level knob name -> True if the non-default alternative is set
@@ -168,6 +184,10 @@ class Spec:
         extra = ""
         if self.knobs:
             extra += " (knobs " + " ".join(f"({n} {'T' if v else 'F'})" for n, v in sorted(self.knobs.items())) + ")"
+        if self.ctor:
+            extra += f" (ctor {self.ctor})"
+        if self.susp:
+            extra += f" (susp {self.susp} {'T' if self.susp_eval else 'F'})"
         if self.hist:
             extra += " (hist " + " ".join(
                 "(" + " ".join(f"({o} {st})" for o, st in sorted(wd.items())) + ")" for wd in self.hist) + ")"
@@ -249,6 +269,11 @@ class Spec:
                 t.append("accessor-" + ACCESSORS.get(x[2], ("?",))[0])
         if any(x[0] == "a" for x in w):
             t.append("accessor")
+        if self.ctor:
+            t.append("ctor-" + self.ctor)
+        if self.susp:
+            t.append("suspended-" + self.susp)
+            t.append("suspended-eval-inside" if self.susp_eval else "suspended-build-only")
         if self.hist:
             t.append(f"history{len(self.hist)}")
         for n, v in sorted(self.knobs.items()):
@@ -293,8 +318,12 @@ def parse_line(line: str) -> Spec:
     pre = [int(x) for x in f["pre"]]
     knobs = {k[0]: k[1] == "T" for k in f.get("knobs", [])}
     hist = [{int(o): int(st) for o, st in wd} for wd in f.get("hist", [])]
-    return Spec(kind, params, pos, kw, doms, pre, f["neg"][0] == "T", int(f["body"][0]), int(f["body"][1]),
-                f.get("vals", ["obj"])[0], knobs, hist, kwonly)
+    sp = Spec(kind, params, pos, kw, doms, pre, f["neg"][0] == "T", int(f["body"][0]), int(f["body"][1]),
+              f.get("vals", ["obj"])[0], knobs, hist, kwonly)
+    sp.ctor = f.get("ctor", [""])[0]
+    if "susp" in f:
+        sp.susp, sp.susp_eval = f["susp"][0], f["susp"][1] == "T"
+    return sp
 
 
 def mk_case(sp: Spec, origin: str) -> Case:
@@ -526,7 +555,61 @@ def generate(rng, tier, n):
     cases.extend(_stateful_cases(rng, tier))
     cases.extend(_constant_cases(rng, tier))
     cases.extend(_signature_cases(rng, tier))
-    return cases
+    return _environment_variants(rng, cases)
+
+
+def _environment_variants(rng, cases: List[Case]) -> List[Case]:
+    """Two variations the property is indifferent to, drawn over EVERY stream (the Lean model ignores both fields):
+    (a) the shape of the Predicate subclass: its constructor derives the state `__call__` reads from the parameters
+        (`__post_init__` of a dataclass, or a hand-written normalising `__init__`) - the concrete call constructs the
+        predicate from the values, so every invocation for a candidate must see the state derived from THAT candidate;
+    (b) the moment of construction: the call is built (and in half of the cases evaluated) while another query's lazily
+        consumed `evaluate()` generator - over a predicate or a symbolic function - is suspended between two `next()`
+        calls, and that query is finished afterwards.
+    Plus a small deterministic family of both."""
+    out: List[Case] = []
+    for c in cases:
+        sp: Spec = c.payload
+        changed = False
+        if sp.kind == "pred" and rng.random() < 0.35:
+            sp.ctor = rng.choice(["post", "init"])
+            changed = True
+        if rng.random() < 0.12:
+            sp.susp = rng.choice(["pred", "fn"])
+            sp.susp_eval = rng.random() < 0.5
+            changed = True
+        out.append(mk_case(sp, c.origin) if changed else c)
+    for ctor in ("post", "init"):
+        for neg in (False, True):
+            for pre in ([], [0]):
+                for shape in range(4):
+                    sp = Spec("pred", [("a", None), ("b", 8)], [], [], {0: [1, 2, 3, 4]}, list(pre), neg, 0, 2,
+                              rng.choice(["obj", "int"]), {name: rng.random() < 0.5 for name in knobs_table()})
+                    if shape == 0:
+                        sp.pos = [("v", 0)]
+                    elif shape == 1:
+                        sp.kw = [("a", ("v", 0))]
+                    elif shape == 2:
+                        sp.pos, sp.kw = [("l", 2)], [("b", ("v", 0))]
+                    else:
+                        sp.params, sp.kwonly = [("a", None), ("b", None)], {"b"}
+                        sp.pos, sp.kw = [("v", 0)], [("b", ("l", 3))]
+                    sp.ctor = ctor
+                    out.append(mk_case(sp, "exhaustive"))
+    for kind in ("fn", "method", "pred"):
+        for susp in ("pred", "fn"):
+            for inside in (False, True):
+                for pre in ([], [0]):
+                    for shape in range(2):
+                        sp = Spec(kind, [("a", None), ("b", 8)], [], [], {0: [1, 2, 3]}, list(pre), False, 0, 2,
+                                  rng.choice(["obj", "int"]), {name: rng.random() < 0.5 for name in knobs_table()})
+                        if shape == 0:
+                            sp.pos = [("v", 0)]
+                        else:
+                            sp.pos, sp.kw = [("l", 2)], [("b", ("v", 0))]
+                        sp.susp, sp.susp_eval = susp, inside
+                        out.append(mk_case(sp, "exhaustive"))
+    return out
 
 
 def _signature_cases(rng, tier) -> List[Case]:
@@ -840,6 +923,11 @@ def shrink(case: Case):
             out.append(v)
 
     add(lambda c: setattr(c, "neg", False))
+    if sp.ctor:
+        add(lambda c: setattr(c, "ctor", ""))
+    if sp.susp:
+        add(lambda c: setattr(c, "susp", ""))
+        add(lambda c: setattr(c, "susp_eval", False))
     add(lambda c: setattr(c, "pre", []))
     add(lambda c: setattr(c, "hist", []))
     if len(sp.hist) > 1:
@@ -1212,10 +1300,75 @@ def _build(w: _World):
         def __call__(self):
             return w.body(tuple(getattr(self, n) for n in names))
 
+        def __call_derived__(self):
+            # reads ONLY what the constructor derived from the parameters
+            return w.body(self._seen_by_ctor)
+
+        if sp.ctor == "init":
+            # hand-written constructor that keeps nothing under the parameter names
+            src = (f"def __init__({', '.join(['self'] + sig)}):\n"
+                   f"    self._seen_by_ctor = ({', '.join(names)},)\n")
+            exec(src, ns)
+            P = type("P", (Predicate,), {"__init__": ns["__init__"], "__call__": __call_derived__, **knob_values})
+            return P, None
+        if sp.ctor == "post":
+            def __post_init__(self):
+                self._seen_by_ctor = tuple(getattr(self, n) for n in names)
+
+            P = dataclasses.make_dataclass("P", fields, bases=(Predicate,), eq=False,
+                                           namespace={"__call__": __call_derived__, "__post_init__": __post_init__,
+                                                      **knob_values})
+            return P, None
         P = dataclasses.make_dataclass("P", fields, bases=(Predicate,), eq=False,
                                        namespace={"__call__": __call__, **knob_values})
         return P, None
     raise ValueError(sp.kind)
+
+
+class _Suspended:
+    """another query, over a predicate / a symbolic function, whose `evaluate()` generator is advanced by ONE result and
+    then left suspended; `finish()` consumes the rest and checks that query's own results"""
+
+    def __init__(self, kind: str):
+        import dataclasses
+        from krrood.entity_query_language.entity import let, set_of
+        from krrood.entity_query_language.quantify_entity import an
+        from krrood.entity_query_language.predicate import symbolic_function, Predicate
+        self.problem = ""
+        self.calls: List[int] = []
+        calls = self.calls
+        z = let(int, [1, 2, 3])
+        if kind == "pred":
+            def __call__(self_):
+                calls.append(self_.v)
+                return self_.v != 2
+
+            Aux = dataclasses.make_dataclass("Aux", [("v", object)], bases=(Predicate,), eq=False,
+                                             namespace={"__call__": __call__})
+            cond = Aux(z)
+        else:
+            def aux(v):
+                calls.append(v)
+                return v != 2
+
+            cond = symbolic_function(aux)(z)
+        self.z = z
+        self.it = iter(an(set_of([z], cond)).evaluate())
+        self.got = [next(self.it)[z]]
+        self.done = False
+
+    def finish(self) -> bool:
+        """True iff something is wrong with the other query"""
+        if not self.done:
+            self.done = True
+            try:
+                self.got += [r[self.z] for r in self.it]
+            except Exception as e:  # noqa: BLE001
+                self.problem = "exc:" + type(e).__name__
+                return True
+            if self.got != [1, 3] or sorted(self.calls) != [1, 2, 3]:
+                self.problem = f"rows={self.got} calls={sorted(self.calls)}"
+        return bool(self.problem)
 
 
 def _one(sp: Spec) -> str:
@@ -1241,9 +1394,12 @@ def _one(sp: Spec) -> str:
 
         pos = [arg(x) for x in sp.pos]
         kw = {n: arg(x) for n, x in sp.kw}
+        aux = _Suspended(sp.susp) if sp.susp else None
         try:
             c = target(*pos, **kw)
         except Exception as e:  # noqa: BLE001
+            if aux is not None:
+                aux.finish()
             return "exc:" + type(e).__name__
         if not isinstance(c, w.SE):
             # executed immediately
@@ -1251,6 +1407,8 @@ def _one(sp: Spec) -> str:
                 if type(c) is not target or w.log:
                     return "C notplain"
                 c = c()  # the user asks the concrete predicate
+            if aux is not None and aux.finish():
+                return "C other-query-wrong:" + aux.problem
             if len(w.log) != 1:
                 return f"C calls={len(w.log)}"
             if c is not w.returned[0]:
@@ -1263,6 +1421,8 @@ def _one(sp: Spec) -> str:
         cond = and_(*conds) if len(conds) > 1 else cond
         sel = [variables[i] for i in order]
         query = an(set_of(sel, cond))  # ONE query object, evaluated once per world
+        if aux is not None and not sp.susp_eval:
+            aux.finish()
         outs = []
         for n_eval, world in enumerate([{}] + list(sp.hist)):
             head = "S " + (f"atctor={atctor} " if atctor and n_eval == 0 else "")
@@ -1277,6 +1437,10 @@ def _one(sp: Spec) -> str:
                 continue
             log = sorted("(" + ",".join(t) + ")" for t in w.log)
             outs.append(head + "log=[" + ",".join(log) + "] rows=[" + ",".join(sorted(set(rows))) + "]")
+            if aux is not None and n_eval == 0:
+                aux.finish()
+        if aux is not None and aux.problem:
+            return "S other-query-wrong:" + aux.problem
         return " ;; ".join(outs)
     except Exception as e:  # noqa: BLE001
         return "harness-exc:" + type(e).__name__ + ":" + str(e)[:80]
